@@ -44,8 +44,11 @@ fn incremental(c: &mut Ctx) {
         let Ok(mut inc) = IncrementalDocument::load_from(&base[..]) else { c.oracle_fail("incr:load", "saved file does not load as IncrementalDocument", json!({"file": hex(&base)})); continue };
         let mut expected = inc.get_prev_documents().clone();
         let ids: Vec<_> = expected.objects.keys().cloned().filter(|id| !matches!(expected.objects[id], Object::Stream(ref s) if s.dict.has_type(b"XRef"))).collect();
-        for id in &ids { if r.chance(1, 3) { let o = gen_obj(&mut r, 3); inc.new_document.set_object(*id, o.clone()); expected.objects.insert(*id, o); } }
-        for _ in 0..1 + r.usize(3) { let o = if r.chance(1, 4) { Object::Stream(gen_stream(&mut r, 1)) } else { gen_obj(&mut r, 3) }; let id = inc.new_document.add_object(o.clone()); expected.objects.insert(id, o); }
+        // modes: empty update, replace-only, replace+add
+        let mode = r.usize(6);
+        c.count(match mode { 0 => "incr.empty_update", 1 => "incr.replace_only", _ => "incr.replace_and_add" });
+        for id in &ids { if mode != 0 && r.chance(1, 3) { let o = if r.chance(1, 8) { Object::Null } else { gen_obj(&mut r, 3) }; inc.new_document.set_object(*id, o.clone()); expected.objects.insert(*id, o); } }
+        for _ in 0..(if mode <= 1 { 0 } else { 1 + r.usize(3) }) { let o = if r.chance(1, 4) { Object::Stream(gen_stream(&mut r, 1)) } else { gen_obj(&mut r, 3) }; let id = inc.new_document.add_object(o.clone()); expected.objects.insert(id, o); }
         expected.objects.retain(|_, o| !matches!(o, Object::Stream(s) if s.dict.has_type(b"XRef")));
         let nd = &inc.new_document;
         let req = format!("save_incr {} {} {} {} {} {} {}", kind, nd.max_id, hex_tok(nd.version.as_bytes()), hex_tok(&nd.binary_mark), hex_tok(&base),
